@@ -17,6 +17,12 @@ big_ints = st.sampled_from([15, 24, 36, 100, 144, 1000, 4096, 65536, 999983, 10*
 dyadic = st.sampled_from(["0.5", "0.25", "1.5", "2.5", "0.75", "4.5", "0.125"])
 nondyadic = st.sampled_from(["0.1", "0.3", "2.7", "1.1", "0.7", "12.3"])
 odd_literals = st.sampled_from([".5", "5.", "0.50", "007", "1.0", "2.0"])
+# literals a binary64 cannot hold (exact int coercion matters), and beyond the float range
+huge_literals = st.one_of(
+    st.integers(2**53, 2**53 + 64).map(str),
+    st.integers(10**15, 10**25).map(str),
+    st.sampled_from(["9007199254740993", "10000000000000001", "12345678901234567891", "1" + "0" * 400, "123456789012345678.5", "0.1234567890123456789"]),
+)
 
 
 def num_text(weights=(10, 1, 3, 1)):
@@ -221,10 +227,14 @@ TEMPLATES = {
         "{a}({v} + {b}) = {c}", "{a}{v} / {b} + {c} = {d}", "-({v} + {a}) = {b}", "({v} + {a})^{m} = {b}", "{c} - ({v} + {a}) = {b}",
         "{a} / ({v} + {b}) = {c}", "{v} + {a} + {b}{w} = {c}", "{a} = {b}{v} * {w}", "{a}{v} * {w} = {b}", "{v} = {a}{w} + {b}{u}",
         "{a}{v} = {b}{w}", "{a}{v}^{m} = {b}", "{a} + ({b} + {v}) = {c}", "{v} + {a} = {b} + ({c} + {w})", "{a}{v} * ({b} + {w}) = {c}",
+        # longer sums, also nested where an addend must NOT be movable
+        "{c} - ({v} + {a} + {w}) = {b}", "{a}({v} + {b} + {w}) = {c}", "-({v} + {a} + {w}) = {b}", "({v} + {a} + {w})^{m} = {b}", "{a} / ({v} + {b} + {w}) = {c}",
+        "{c} - ({w} + ({v} + {a})) = {b}", "{v} + {a} + {w} = {b}", "{b} = {v} + {a} + {w}", "{d} = {a}{v} + {b} - {w}", "{w} + ({v} + {a}) = {b}", "{b} = {w} + ({v} + {a} + {u})",
+        "{v} + {a} + {b}{w} + {c} = {d}{u} + {w} + {a}", "{v} - {a} + {w} = {b}", "{b} = ({v} + {a}) - {w}", "{a}{v} + {b} - ({w} + {c} + {u}) = {d}", "sgn({v} + {a} + {w}) = {b}",
     ],
 }
 CONTEXTS = [
-    "{T}", "{T}", "{T}", "({T}) + {k}", "{k} + ({T})", "{k} * ({T})", "({T}) * {k}", "-({T})", "({T})^2", "{k} - ({T})", "({T}) - {k}",
+    "{T}", "{T}", "{T}", "{T}", "{T}", "{T}", "{T}", "({T}) + {k}", "{k} + ({T})", "{k} * ({T})", "({T}) * {k}", "-({T})", "({T})^2", "{k} - ({T})", "({T}) - {k}",
     "{k} / ({T})", "({T}) / {k}", "({T}) = {k}", "{k} = ({T})", "{x}({T})", "({T}) + {x} = {k}", "{k}^({T})", "sgn({T})",
     "({T}) * ({T2})", "({T}) + ({T2})", "({T}) = ({T2})", "{T} + {k}", "{k} + {T}", "{T} = {k}", "{x} + ({T})",
 ]
@@ -258,6 +268,9 @@ def harvested_inputs():
 _FALLBACK_INPUTS = ["4x^3 + g + 5y + 7p^4 + x^3 + 12p^4", "3x + 7 = 2 + 4x", "(u^3 * 36c^6) * 7u^3", "792z^4 * 490f * q^3", "11n + -(-4 + 3) * s^2"]
 
 
+RECIPROCAL = {"1": "1", "-1": "-1", "2": "0.5", "0.5": "2", "4": "0.25", "0.25": "4", "10": "0.1", "0.1": "10", "-2": "-0.5", "-0.5": "-2", "8": "0.125"}
+
+
 @st.composite
 def fill_template(draw, tmpl, depth=1):
     same = draw(st.integers(0, 3)) != 0  # v and w are usually different variables
@@ -268,6 +281,17 @@ def fill_template(draw, tmpl, depth=1):
     for key in "abcd":
         if "{" + key + "}" in tmpl:
             vals[key] = draw(any_coef)
+    # coincidences a generic draw almost never produces: equal, opposite and reciprocal coefficients
+    if "a" in vals and "b" in vals:
+        mode = draw(st.integers(0, 11))
+        if mode == 0:
+            vals["b"] = vals["a"]
+        elif mode == 1:
+            vals["b"] = vals["a"][1:] if vals["a"].startswith("-") else "-" + vals["a"]
+        elif mode == 2:
+            vals["b"] = RECIPROCAL.get(vals["a"], vals["b"])
+        elif mode == 3:
+            vals["a"], vals["b"] = draw(st.sampled_from([("1", "1"), ("-1", "-1"), ("0.5", "2"), ("2", "0.5"), ("0", "0"), ("1", "0"), ("0", "1"), ("4", "0.25")]))
     # same exponent is the interesting case for like terms
     m = draw(exponent)
     n = m if draw(st.integers(0, 2)) == 0 else draw(exponent)
@@ -311,6 +335,35 @@ def template_text(draw, groups=None):
     return c.format(T=t, T2=t2, k=draw(any_coef), x=draw(var3))
 
 
+COINCIDENCES = [
+    ("3", "5"), ("4", "4"), ("3", "-3"), ("0.5", "2"), ("1", "1"), ("-1", "-1"), ("0", "5"), ("5", "0"), ("1", "7"), ("7", "1"), ("-2", "0.5"), ("0.1", "0.3"), ("6", "9"), ("0", "0"),
+]
+
+
+def sweep_texts(groups=None):
+    """Deterministic 'every template x every coefficient coincidence' list (root position and one
+    nested position): the corners a random draw reaches far too rarely (product 1, sum 0, zero
+    or unit coefficients, equal/unequal exponents and variables)."""
+    out = []
+    for g in groups or list(TEMPLATES):
+        for tmpl in TEMPLATES[g]:
+            for a, b in COINCIDENCES:
+                for same_var, (m, n) in ((False, ("2", "2")), (True, ("2", "3")), (False, ("0", "1"))):
+                    vals = {"a": a, "b": b, "c": "3", "d": "5", "v": "x", "w": "x" if same_var else "y", "u": "z", "m": m, "n": n, "E": "y", "F": "(z + 1)", "G": "z"}
+                    t = tmpl.format(**vals)
+                    out.append(t)
+                    if "=" not in t and (m, n) == ("2", "2"):
+                        out.append(f"({t}) + w")
+                        out.append(f"2 * ({t})")
+    seen = set()
+    uniq = []
+    for t in out:
+        if t not in seen:
+            seen.add(t)
+            uniq.append(t)
+    return uniq
+
+
 def tree_text(max_nodes=12):
     """Text for G-tree: grammar ASTs, rule-shaped templates in context, repository examples."""
     inputs = harvested_inputs() or _FALLBACK_INPUTS
@@ -337,7 +390,7 @@ def tree_case(max_nodes=12, max_pre=4):
 
 
 # ---------------------------------------------------------------- G-str
-ALPHABET = list("0123456789") + ["."] + list("xyzabs") + list("+-*/^!=()[]") + [" ", " ", "\t", "sgn", "–", "g", "n"]
+ALPHABET = list("0123456789") + ["."] + list("xyzabs") + list("+-*/^!=()[]") + [" ", " ", "\t", "sgn", "–", "g", "n", "S", "G", "N", "X", "Sgn", "SGN", "sgn(", "Sgn("]
 token_soup = st.lists(st.sampled_from(ALPHABET), max_size=24).map("".join)
 
 
@@ -370,7 +423,7 @@ def decorate(base):
     @st.composite
     def deco(draw):
         s = draw(base)
-        mode = draw(st.integers(0, 5))
+        mode = draw(st.integers(0, 6))
         if mode == 0:
             s = s.replace("(", "[").replace(")", "]")
         elif mode == 1:
@@ -379,14 +432,36 @@ def decorate(base):
             s = s.replace(" ", draw(st.sampled_from(["\t", "  ", "\n", "\r\n", ""])))
         elif mode == 3:
             s = " " + s + "  "
+        elif mode == 4:
+            # the alphabet has both cases: upper-case one letter run (function names are case-sensitive)
+            i = draw(st.integers(0, max(0, len(s) - 1)))
+            j = i
+            while j < len(s) and s[j].isalpha():
+                j += 1
+            k = draw(st.integers(0, 2))
+            s = s[:i] + (s[i:j].upper() if k == 0 else s[i:j].capitalize() if k == 1 else s[i:j].swapcase()) + s[j:]
         return s
 
     return deco()
 
 
+@st.composite
+def with_huge_literal(draw, base):
+    """Replace one small literal of a generated string by a literal beyond 2^53."""
+    import re
+
+    s = draw(base)
+    spots = [m for m in re.finditer(r"(?<![\d.])\d+(?![\d.])", s)]
+    lit = draw(huge_literals)
+    if not spots:
+        return lit + " + " + s if s else lit
+    m = spots[draw(st.integers(0, len(spots) - 1))]
+    return s[: m.start()] + lit + s[m.end() :]
+
+
 def grammar_strings(max_nodes=10):
     base = st.one_of(expr_text(max_nodes), expr_text(max_nodes), template_text())
-    return st.one_of(base, decorate(base), mutated(base), token_soup)
+    return st.one_of(base, base, decorate(base), mutated(base), token_soup, with_huge_literal(base))
 
 
 # ---------------------------------------------------------------- G-assign
